@@ -8,6 +8,10 @@ the traced positions are exactly those the operation is supposed to keep, in the
 is supposed to produce, and every descriptor value attached to a result row / column /
 time slice equals the value its source position carried.  Plain loops, no model.
 
+Round 5: the memory layout and dtype of every measurement array are kept when it is re-tagged
+(`R.like`), so layouts that arise from operations propagate through the oracle's session exactly as
+they do in the library; means of float32 measurements are compared with float32 accuracy.
+
 Round 4: after every step EVERY object of the workspace is re-read, not only the result: a
 dataset the operation was not addressed to (and the kept source of a value-returning operation,
 and every dataset after a query / a refused call) must hold exactly the measurements it held, each
@@ -19,12 +23,17 @@ import numpy as np
 from engines import C11_real as R
 
 
-def _close(a, b):
+def _close(a, b, rtol=1e-9):
     if a is None or b is None:          # missing value: only equal to a missing value
         return a is None and b is None
     if isinstance(a, str) or isinstance(b, str):
         return a == b
-    return abs(float(a) - float(b)) <= 1e-9 * max(1.0, abs(float(a)), abs(float(b)))
+    return abs(float(a) - float(b)) <= rtol * max(1.0, abs(float(a)), abs(float(b)))
+
+
+def mean_rtol(src):
+    """numpy averages float32 measurements in float32 (eps = 6e-8); everything else in float64"""
+    return 1e-6 if src.get('dtype') == 'float32' else 1e-9
 
 
 import random as _random
@@ -57,7 +66,10 @@ def retag(ws, start=1, share=True):
                     m[i, j, t] = tag
                     where[tag] = (di, i, j, t)
                     nxt += 1
-        arr = m if d.measurements.ndim == 3 else m[:, :, 0]
+        # round 5: the tags are written into an array with exactly the dtype, shape and STRIDES of the
+        # one the library left in the object (Fortran order, the transposed buffer of `a[:, :, idx]`,
+        # strided / reversed views of the caller's array ...): re-tagging must not normalise the layout
+        arr = R.like(d.measurements, m if d.measurements.ndim == 3 else m[:, :, 0])
         arrays[id(d.measurements)] = (di, arr)
         d.measurements = arr
         group.append(di)
@@ -76,7 +88,7 @@ def view(d):
         'chan': [{k: (v[j] if j < len(v) else '~no entry~') for k, v in c['chan'].items()} for j in range(nc)],
         'time': [{k: (v[t] if t < len(v) else '~no entry~') for k, v in c['time'].items()} for t in range(nt)],
         'lens': {ax: {k: len(v) for k, v in c[ax].items()} for ax in ('obs', 'chan', 'time')},
-        'temporal': c['temporal'],
+        'temporal': c['temporal'], 'dtype': str(d.measurements.dtype),
     }
 
 
@@ -390,7 +402,7 @@ def _check_bin(v, src, args):
         for i in range(src['no']):
             for j in range(src['nc']):
                 want = sum(Fraction(int(src['m'][i, j, t])) for t in idx) / len(idx)
-                if not _close(v['m'][i, j, b], want):
+                if not _close(v['m'][i, j, b], want, mean_rtol(src)):
                     raise Bad(f'bin_time: value of bin {b} at ({i},{j}) is not the mean of its time points',
                               float(v['m'][i, j, b]), float(want))
         wt = sum(Fraction(x) for x in (tcol[t] for t in idx)) / len(idx)
@@ -480,7 +492,7 @@ def _check_query(name, args, src, val):
                 raise Bad(f'average_by: size of group {u!r}', val['n'][a], len(rows))
             for j in range(src['nc']):
                 want = sum(Fraction(int(src['m'][i, j, 0])) for i in rows) / len(rows)
-                if not _close(val['avg'][a][j], want):
+                if not _close(val['avg'][a][j], want, mean_rtol(src)):
                     raise Bad(f'average_by: mean of group {u!r}, channel {j} is not the mean of exactly '
                               f'the rows carrying that label', val['avg'][a][j], float(want))
     else:
